@@ -275,6 +275,11 @@ func errorCode(err error) int {
 	if rootErr != nil {
 		err = rootErr
 	}
+	// an error that is not an SMTP reply (a failed body writer, a broken connection) can have
+	// any text, also an empty or a very short one
+	if len(err.Error()) < 3 {
+		return 0
+	}
 	firstrune := err.Error()[0]
 	if firstrune < 52 || firstrune > 53 {
 		return 0
@@ -294,6 +299,9 @@ func enhancedStatusCode(err error, supported bool) string {
 	rootErr := errors.Unwrap(err)
 	if rootErr != nil {
 		err = rootErr
+	}
+	if len(err.Error()) < 3 {
+		return ""
 	}
 	firstrune := err.Error()[0]
 	if firstrune != 50 && firstrune != 52 && firstrune != 53 {
